@@ -1,5 +1,6 @@
 import Pyxv.Proofs.ValidatorLemmas
 import Pyxv.Proofs.ValidatorLines
+import Pyxv.Proofs.ExtChoicesLemmas
 /-!
 # C18 — validator verdicts are honoured and failures leave no residue
 
@@ -446,43 +447,42 @@ theorem cleaner_paths_to_refs (pre post : Str) (segs : List Str)
 /-- `\n` separates paths; the characters the rewriting introduces are not line boundaries (table facts) -/
 theorem nl_delim : isDelim '\n' = true := by decide +kernel
 
-/-- the line does not end inside a path: it ends with a delimiter character followed by segment characters only
-(a word, or nothing), and its very last character is not blank -/
-def EndsClean (l : Str) : Prop :=
-  ∃ y d r e, l = y ++ d :: r ∧ isDelim d = true ∧ (∀ c ∈ r, isSeg c = true) ∧
-    (d :: r).getLast? = some e ∧ pyIsSpace e = false
-
 /-- **cleaner_end_to_end** — `ErrorCleaner.odk_validate` works line by line.  For every diagnostic given as lines
-(joined by `\n`; no line contains a line boundary; the first line starts with a non-blank character other than `/`;
-the last line `EndsClean`; not the launcher's jarfile message): the final message is the `\n`-join of the lines,
-each rewritten by the path substitution *on its own*, neighbouring duplicates dropped, stack lines dropped and
-exception names deleted.  Together with `cleaner_paths_to_refs` (applied to any line) and `cleaner_no_java_noise`
-this is the statement about the final message: `strip`, `splitlines` and `join` neither merge, split nor lose lines. -/
+(joined by `\n`; no line contains a line boundary; the text starts and ends with a non-blank character, i.e. it is
+already stripped; not the launcher's jarfile message): the final message is the `\n`-join of the lines, each
+rewritten by the path substitution *on its own*, neighbouring duplicates dropped, stack lines dropped and exception
+names deleted.  Together with `cleaner_paths_to_refs` (applied to any line) and `cleaner_no_java_noise` this is the
+statement about the final message: `strip`, `splitlines` and `join` neither merge, split nor lose lines. -/
 theorem cleaner_end_to_end (ls : List Str) (hne : ls ≠ [])
     (hlb : ∀ l ∈ ls, ∀ c ∈ l, isLineBreak c = false)
-    (hhead : ∃ c r rest, ls = (c :: r) :: rest ∧ pyIsSpace c = false ∧ c ≠ '/')
-    (hlast : EndsClean (ls.getLast hne))
+    (hhead : ∃ c r rest, ls = (c :: r) :: rest ∧ pyIsSpace c = false)
+    (hlast : ∃ x e, ls.getLast hne = x ++ [e] ∧ pyIsSpace e = false)
     (hjar : isInfix jarfilePhrase (joinWith ['\n'] ls) = false) :
     odkValidate (joinWith ['\n'] ls) = joinWith ['\n'] ((dedupAdj (ls.map subPaths)).filterMap removeJava) := by
   have hsub : subPaths (joinWith ['\n'] ls) = joinWith ['\n'] (ls.map subPaths) := subPaths_join '\n' nl_delim ls
   have hms_ne : ls.map subPaths ≠ [] := by simpa using hne
-  -- the last rewritten line
-  obtain ⟨y, d, r, e, hl, hd, hr, hge, he⟩ := hlast
-  obtain ⟨z, hz⟩ : ∃ z, d :: r = z ++ [e] := by
-    rw [List.getLast?_eq_some_iff] at hge
-    exact hge
-  have hlastm : (ls.map subPaths).getLast hms_ne = (subPaths y ++ z) ++ [e] := by
-    rw [List.getLast_map, hl, subPaths_split y r d hd, subPaths_allSeg r hr, hz]
-    simp [List.append_assoc]
+  -- the last rewritten line ends with the last character of the text or with `}`
+  obtain ⟨x, e, hl, he⟩ := hlast
+  obtain ⟨z, e', hz, he'⟩ := subPaths_last x e slash_not_seg
+  have hsp' : pyIsSpace e' = false := by
+    rcases he' with rfl | rfl
+    · exact he
+    · decide
+  have hlastm : (ls.map subPaths).getLast hms_ne = z ++ [e'] := by
+    rw [List.getLast_map, hl, hz]
   obtain ⟨pre, hpre⟩ := joinWith_last ['\n'] (ls.map subPaths) hms_ne
-  -- the first rewritten line
-  obtain ⟨c, r0, rest, hls, hc, hc2⟩ := hhead
-  obtain ⟨r1, hr1⟩ := subPaths_head c r0 hc2
-  obtain ⟨r2, hr2⟩ := joinWith_head ['\n'] c r1 (rest.map subPaths)
-  have hhd : joinWith ['\n'] (ls.map subPaths) = c :: r2 := by
+  -- the first rewritten line starts with the first character of the text or with `$`
+  obtain ⟨c, r0, rest, hls, hc⟩ := hhead
+  obtain ⟨d, r1, hr1, hd⟩ := subPaths_first c r0
+  have hsd : pyIsSpace d = false := by
+    rcases hd with rfl | rfl
+    · exact hc
+    · decide
+  obtain ⟨r2, hr2⟩ := joinWith_head ['\n'] d r1 (rest.map subPaths)
+  have hhd : joinWith ['\n'] (ls.map subPaths) = d :: r2 := by
     rw [hls, List.map_cons, hr1, hr2]
   have hstrip : strip (joinWith ['\n'] (ls.map subPaths)) = joinWith ['\n'] (ls.map subPaths) :=
-    strip_id _ c e r2 (pre ++ (subPaths y ++ z)) hhd (by rw [hpre, hlastm]; simp [List.append_assoc]) hc he
+    strip_id _ d e' r2 (pre ++ z) hhd (by rw [hpre, hlastm]; simp [List.append_assoc]) hsd hsp'
   have hnb : ∀ m ∈ ls.map subPaths, ∀ x ∈ m, isLineBreak x = false := by
     intro m hm x hx
     simp only [List.mem_map] at hm
@@ -506,16 +506,98 @@ theorem cleaner_end_to_end_path (pre post : Str) (segs : List Str) (more : List 
     (hsegs : ∀ s ∈ segs, s ≠ [] ∧ ∀ c ∈ s, isSeg c = true) (hlen : 2 ≤ segs.length)
     (hkeep : keepMatch (chainText segs) = false)
     (hlb : ∀ l ∈ (pre ++ chainText segs ++ post) :: more, ∀ c ∈ l, isLineBreak c = false)
-    (hhead : ∃ c r, pre ++ chainText segs ++ post = c :: r ∧ pyIsSpace c = false ∧ c ≠ '/')
-    (hlast : EndsClean (((pre ++ chainText segs ++ post) :: more).getLast hne))
+    (hhead : ∃ c r, pre ++ chainText segs ++ post = c :: r ∧ pyIsSpace c = false)
+    (hlast : ∃ x e, ((pre ++ chainText segs ++ post) :: more).getLast hne = x ++ [e] ∧ pyIsSpace e = false)
     (hjar : isInfix jarfilePhrase (joinWith ['\n'] ((pre ++ chainText segs ++ post) :: more)) = false) :
     odkValidate (joinWith ['\n'] ((pre ++ chainText segs ++ post) :: more)) =
       joinWith ['\n'] ((dedupAdj ((subPaths pre ++ ('$' :: '{' :: (segs.getLastD []) ++ ['}']) ++ subPaths post)
         :: more.map subPaths)).filterMap removeJava) := by
-  obtain ⟨c, r, h1, h2, h3⟩ := hhead
-  have h := cleaner_end_to_end _ hne hlb ⟨c, r, more, by rw [h1], h2, h3⟩ hlast hjar
+  obtain ⟨c, r, h1, h2⟩ := hhead
+  have h := cleaner_end_to_end _ hne hlb ⟨c, r, more, by rw [h1], h2⟩ hlast hjar
   obtain ⟨hsp, hrep, _⟩ := cleaner_paths_to_refs pre post segs hpre hpost hsegs hlen
   rw [h, List.map_cons, hsp, hrep hkeep]
+
+/-! ## external choices: `has_external_choices` and the itemsets file -/
+
+open Pyxv.JV in
+/-- **has_external_choices_iff** — the walk answers `True` iff some dict at any depth (below any key, inside any
+list) binds `type` to a string starting with `select one external`. -/
+theorem has_external_choices_iff (j : JV.J) : hasExt j = true ↔ ExtAt j :=
+  ⟨hasExt_sound j, hasExt_complete j⟩
+
+/-- a survey element as the JSON intermediate form nests it: its type, its other members, its children -/
+inductive El where
+  | node (type : Str) (extra : List (Str × JV.J)) (children : List El)
+
+mutual
+/-- the dict of an element: `{"type": …, …, "children": […]}` -/
+def El.toJ : El → JV.J
+  | .node t extra ch => .obj ((typeKey, .str t) :: extra ++ [(childrenKey, .arr (El.toJList ch))])
+def El.toJList : List El → List JV.J
+  | [] => []
+  | e :: es => e.toJ :: El.toJList es
+end
+
+/-- the element or one of its descendants, at any depth, is an external select -/
+inductive El.HasExtSelect : El → Prop where
+  | self (t : Str) (extra : List (Str × JV.J)) (ch : List El) :
+      startsWith t selectOneExternal = true → El.HasExtSelect (.node t extra ch)
+  | child (t : Str) (extra : List (Str × JV.J)) (ch : List El) (c : El) :
+      c ∈ ch → El.HasExtSelect c → El.HasExtSelect (.node t extra ch)
+
+theorem mem_toJList (ch : List El) (c : El) (h : c ∈ ch) : c.toJ ∈ El.toJList ch := by
+  induction ch with
+  | nil => simp at h
+  | cons e es ih =>
+    rcases List.mem_cons.1 h with rfl | h'
+    · simp [El.toJList]
+    · simp [El.toJList, ih h']
+
+/-- **ext_select_any_container** — an external select is found at any depth below containers of *any* type
+(group, repeat, loop, survey, or any other type string): nothing in the walk depends on the container's type. -/
+theorem ext_select_any_container (e : El) (h : El.HasExtSelect e) : hasExt e.toJ = true := by
+  induction h with
+  | self t extra ch ht =>
+    exact hasExt_complete _ (.here _ (.str t) (by simp [El.toJ]) (by simpa [isExtType] using ht))
+  | child t extra ch c hm _ ih =>
+    refine hasExt_complete _ (.inObj _ childrenKey (.arr (El.toJList ch)) (by simp [El.toJ]) ?_)
+    exact .inArr _ c.toJ (mem_toJList ch c hm) (hasExt_sound _ ih)
+
+/-- the container kinds a survey row can open (`aliases.control`) are the builder's section types or `loop` -/
+theorem container_kinds_table :
+    Gen.aliasControl.all (fun p => Gen.c18SectionTypes.contains p.2 || p.2 == Gen.c18LoopType) = true := by decide
+
+theorem convert_ok_itemsets (u p : Str) (items : Option Str) (preW postW : List Str) (t : Nat) (v pp : Bool)
+    (env : Env) (fs : FS) (cr : ConvertResult)
+    (h : (convert (.ok u p items preW postW) t v pp env fs).res = .ok cr) : cr.itemsets = items := by
+  unfold convert toXml printXformToFile at h
+  cases v
+  · simp at h; rw [← h]
+  · cases hc : checkXform env with
+    | error e => simp [hc] at h
+    | ok w => simp [hc] at h; rw [← h]
+
+/-- **itemsets_beside_tree** — `itemsets_beside` tied to the tree walk: when the JSON intermediate form contains an
+external select at any depth, every successful run (any mode, any flags, any validator environment that lets the
+library call return) leaves `itemsets.csv` with the external choices beside the XForm. -/
+theorem itemsets_beside_tree (raw : Args) (inDir inName : Str) (out : Option (Str × Str)) (pyx : JV.J) (csv u p : Str)
+    (preW postW : List Str) (t : Nat) (env : Env) (fs : FS) (r : CliOut) (cr : ConvertResult)
+    (hext : ExtAt pyx)
+    (h : mainCli raw inDir inName out (.ok u p (itemsetsOf pyx csv) preW postW) t env fs = some r)
+    (hlib : (libCall raw (.ok u p (itemsetsOf pyx csv) preW postW) t env fs).res = .ok cr) :
+    cr.itemsets = some csv ∧ FS.read r.fs (.file (outPathOf inDir inName out).1 itemsetsName) = some csv := by
+  have hi : cr.itemsets = some csv := by
+    rw [convert_ok_itemsets _ _ _ _ _ _ _ _ _ _ _ hlib]
+    simp [itemsetsOf, hasExt_complete pyx hext]
+  exact ⟨hi, itemsets_beside raw inDir inName out _ t env fs r cr csv h hlib hi⟩
+
+/-- an external select inside a `loop` inside a `repeat` below the survey, on concrete data -/
+example : hasExt (El.toJ (.node "survey".toList [] [.node "repeat".toList [] [.node "loop".toList [("name".toList, .str "l".toList)]
+    [.node "select one external cities".toList [] []]]])) = true := by decide +kernel
+example : El.HasExtSelect (.node "survey".toList [] [.node "loop".toList [] [.node "select one external cities".toList [] []]]) :=
+  .child _ _ _ (.node "loop".toList [] [.node "select one external cities".toList [] []]) (List.mem_singleton.2 rfl)
+    (.child _ _ _ (.node "select one external cities".toList [] []) (List.mem_singleton.2 rfl) (.self _ _ _ (by decide +kernel)))
+example : hasExt (El.toJ (.node "survey".toList [] [.node "select one".toList [] []])) = false := by decide +kernel
 
 /-! ## non-vacuity -/
 
@@ -557,11 +639,11 @@ example : (mainCli {} "in".toList "form.md".toList (some ("out".toList, "form.xm
 example : odkValidate "x /data/g/q1 y\nx /data/g/q1 y\n\tat a.B(B.java:1)\n/html/body/input".toList
     = "x ${q1} y\n/html/body/input".toList := by decide +kernel
 example : cleanupErrors "a\na\nb\na".toList = ["a".toList, "b".toList, "a".toList] := by decide +kernel
-/-- `EndsClean` and the end-to-end statement on concrete data (a word at the end; a full stop at the end) -/
-example : EndsClean "Result: Invalid".toList := ⟨"Result:".toList, ' ', "Invalid".toList, 'd', rfl, by decide +kernel, by decide +kernel, rfl, by decide⟩
-example : EndsClean "broke.".toList := ⟨"broke".toList, '.', [], '.', rfl, by decide +kernel, by simp, rfl, by decide⟩
+/-- the end-to-end statement on concrete data: a text that starts with a path and ends inside one -/
 example : odkValidate (joinWith ['\n'] ["Error in [/data/g/first-name] now".toList, "\tat a.B(B.java:1)".toList, "Result: Invalid".toList])
     = "Error in [${first-name}] now\nResult: Invalid".toList := by decide +kernel
+example : odkValidate (joinWith ['\n'] ["/data/g/q1 depends on".toList, "/data/g/q2".toList])
+    = "${q1} depends on\n${q2}".toList := by decide +kernel
 /-- the hypotheses of `cleaner_paths_to_refs` on concrete data -/
 example : subPaths ("see [".toList ++ chainText ["data".toList, "g".toList, "q1".toList] ++ "] now".toList)
     = "see [${q1}] now".toList := by decide +kernel
